@@ -320,7 +320,7 @@ package spec
 //@ func (t *SymbolTable) ensureDistinctDefs() error
 //@   requires tableOK(t)
 //@   loop[0] invariant forall v string, j int :: {reverse[v][j]} 0 <= j && j < len(reverse[v]) ==> reverse[v][j] != nil
-//@   loop[1] invariant errOK(errs) && (errs == nil || fresh(unbox(errs, "*errors.MultiError")))
+//@   loop[2] invariant errOK(errs) && (errs == nil || fresh(unbox(errs, "*errors.MultiError")))
 //@   ensures errOK(result)
 
 //@ func (t *SymbolTable) ensureDistinctDefs$1(def *TerminalDef) string
